@@ -458,30 +458,36 @@ func c05Generates(c *Check, a *Anchors) {
 	}
 	c.Fn(up)
 	info := up.Info()
+	// the per-entry loop: in IsUpToDate itself or in a helper it delegates to
 	var loop *ast.RangeStmt
-	inspectBody(up.Body, func(nd ast.Node) bool {
-		if r, ok := nd.(*ast.RangeStmt); ok && fieldSel(info, r.X, PkgAst, "Task", "Generates") {
-			loop = r
-		}
-		return true
-	})
+	var loopFB *FuncBody
+	for _, g := range c.P.groupOf(up, 2) {
+		inspectBody(g.Body, func(nd ast.Node) bool {
+			if r, ok := nd.(*ast.RangeStmt); ok && loop == nil && fieldSel(g.Info(), r.X, PkgAst, "Task", "Generates") {
+				loop, loopFB = r, g
+			}
+			return true
+		})
+	}
 	name := fnDisplay(up)
 	if loop == nil {
 		c.Bad("generates-checked", "per-entry-loop@"+name, up.Decl.Pos(), "the checksum checker no longer loops over the individual generates entries: a task with several generates entries stays 'up to date' when only some outputs are missing")
 	} else {
-		item := varOf(info, loop.Value)
+		c.Fn(loopFB)
+		linfo := loopFB.Info()
+		item := varOf(linfo, loop.Value)
 		perEntry, emptyFalse := false, false
 		inspectBody(loop.Body, func(nd ast.Node) bool {
 			switch x := nd.(type) {
 			case *ast.CallExpr:
-				if fn, ok := callee(info, x).(*types.Func); ok && fn.Pkg() != nil && fn.Pkg().Path() == PkgFingerprint && item != nil && mentions(info, x, item) {
+				if fn, ok := callee(linfo, x).(*types.Func); ok && fn.Pkg() != nil && fn.Pkg().Path() == PkgFingerprint && item != nil && mentions(linfo, x, item) {
 					perEntry = true
 				}
 			case *ast.IfStmt:
 				cond := exprStr(x.Cond)
 				if strings.Contains(cond, "len(") && strings.Contains(cond, "== 0") {
 					for _, r := range returnsOf(x.Body) {
-						if len(r.Results) == 2 && exprStr(r.Results[0]) == "false" {
+						if len(r.Results) == 2 && constIs(linfo, r.Results[0], "false") {
 							emptyFalse = true
 						}
 					}
@@ -491,14 +497,38 @@ func c05Generates(c *Check, a *Anchors) {
 		})
 		c.Decide(perEntry && emptyFalse, "generates-checked", "per-entry-loop@"+name, loop.Pos(), "each entry is globbed on its own and an empty result returns false",
 			fmt.Sprintf("the generates loop does not check each entry on its own (globs the entry: %v, returns false on an empty match: %v)", perEntry, emptyFalse))
-		// every return that can be true lies after the loop
+		// every return of IsUpToDate that can say `true` lies after the check (and, when the check lives in a helper, on the edge where the helper said ok)
 		okPos := true
-		for _, r := range returnsOf(up.Body) {
-			if len(r.Results) == 2 && exprStr(r.Results[0]) != "false" && r.Pos() < loop.End() {
+		why := "a return that can yield 'up to date' precedes the generates check"
+		if loopFB == up {
+			for _, r := range returnsOf(up.Body) {
+				if len(r.Results) == 2 && !constIs(info, r.Results[0], "false") && r.Pos() < loop.End() {
+					okPos = false
+				}
+			}
+		} else {
+			f := NewFlow(c.P, up, func(call *ast.CallExpr, obj types.Object) string {
+				if fn, ok := obj.(*types.Func); ok && c.P.DeclOf(fn) == loopFB {
+					return "generates-check"
+				}
+				return ""
+			})
+			f.Run()
+			n := 0
+			for _, r := range f.Returns {
+				if len(r.Results) == 2 && !constIs(info, r.Results[0], "false") {
+					n++
+					if st := f.At[r]; !st.Has("true:generates-check") {
+						okPos = false
+						why = "a return that can yield 'up to date' is not dominated by the true verdict of the generates check; must-facts: " + st.String()
+					}
+				}
+			}
+			if n == 0 {
 				okPos = false
 			}
 		}
-		c.Decide(okPos, "generates-checked", "true-only-after-loop@"+name, loop.Pos(), "no return before the end of the generates loop can yield true", "a return that can yield 'up to date' precedes the generates check")
+		c.Decide(okPos, "generates-checked", "true-only-after-loop@"+name, loop.Pos(), "no return that can yield true escapes the generates check", why)
 	}
 	ts := c.P.Func(PkgFingerprint, "TimestampChecker", "IsUpToDate")
 	if ts == nil {
